@@ -637,6 +637,26 @@ class StreamResultRouter(StreamResult):
     _policies["test_id"] = _map_test_id
 
 
+_STATUS_PARAMETERS = (
+    "test_id",
+    "test_status",
+    "test_tags",
+    "runnable",
+    "file_name",
+    "file_bytes",
+    "eof",
+    "mime_type",
+    "route_code",
+    "timestamp",
+)
+
+
+def _status_kwargs(args, kwargs):
+    """Fold the positional arguments of a status() call into its keywords."""
+    kwargs.update(zip(_STATUS_PARAMETERS, args))
+    return kwargs
+
+
 class StreamTagger(CopyStreamResult):
     """Adds or discards tags from StreamResult events."""
 
@@ -653,13 +673,15 @@ class StreamTagger(CopyStreamResult):
         self.discard = frozenset(discard or ())
 
     def status(self, *args, **kwargs):
+        # test_tags may have been passed positionally.
+        kwargs = _status_kwargs(args, kwargs)
         # Work on a copy: the caller's set (which may be a frozenset) is not ours
         # to modify, and is shared with sibling results.
         test_tags = set(kwargs.get("test_tags") or ())
         test_tags.update(self.add)
         test_tags.difference_update(self.discard)
         kwargs["test_tags"] = test_tags or None
-        super().status(*args, **kwargs)
+        super().status(**kwargs)
 
 
 class _TestRecord:
@@ -2185,10 +2207,11 @@ class TimestampingStreamResult(CopyStreamResult):
         super().__init__([target])
 
     def status(self, *args, **kwargs):
-        timestamp = kwargs.pop("timestamp", None)
-        if timestamp is None:
-            timestamp = datetime.datetime.now(utc)
-        super().status(*args, timestamp=timestamp, **kwargs)
+        # The timestamp may have been passed positionally.
+        kwargs = _status_kwargs(args, kwargs)
+        if kwargs.get("timestamp") is None:
+            kwargs["timestamp"] = datetime.datetime.now(utc)
+        super().status(**kwargs)
 
 
 class _StringException(Exception):
